@@ -1375,18 +1375,30 @@ impl Scenario for DynScen {
             let fields: Vec<Shape> = (0..names.len()).map(|i| if i == 0 { Shape::Seq(Box::new(Shape::String)) } else { Shape::String }).collect();
             p.shape = Some(Shape::Struct { name: 0, set, fields, deny_unknown: false, defaults: true });
             let depth = *rng.pick(&[3000usize, 9000, 12000]);
-            let inner = *rng.pick(&["d", "zz", names[0]]);
-            let mut doc = format!("<root><{0}>x</{0}><zz>", names[0]);
-            for _ in 0..depth {
-                doc.push_str(&format!("<{}>", inner));
+            let mut doc = format!("<root><{0}>x</{0}>", names[0]);
+            if rng.bool() {
+                let inner = *rng.pick(&["d", "zz", names[0]]);
+                doc.push_str("<zz>");
+                for _ in 0..depth {
+                    doc.push_str(&format!("<{}>", inner));
+                }
+                for _ in 0..depth {
+                    doc.push_str(&format!("</{}>", inner));
+                }
+                doc.push_str("</zz>");
+                p.note = format!("list items separated by an element nested {} deep; isolated", depth);
+            } else {
+                // flat instead of deep: thousands of consecutive tokens that the deserializer
+                // drops (comments, processing instructions, blank text)
+                let tok = *rng.pick(&["<!---->", "<?p?>", "<!--c-->\n", " <?p?> "]);
+                for _ in 0..(140_000 / tok.len()).min(2 * depth) {
+                    doc.push_str(tok);
+                }
+                p.note = format!("list items separated by a run of {:?} tokens; isolated", tok);
             }
-            for _ in 0..depth {
-                doc.push_str(&format!("</{}>", inner));
-            }
-            doc.push_str(&format!("</zz><{0}>y</{0}></root>", names[0]));
+            doc.push_str(&format!("<{0}>y</{0}></root>", names[0]));
             p.doc = doc.into_bytes();
             p.isolate = true;
-            p.note = format!("list items separated by an element nested {} deep; isolated", depth);
             let (mut st, mode) = gen_stream(rng, &p.doc, false);
             st.keep_buf = false;
             st.faults.clear();
